@@ -449,8 +449,17 @@ pub fn generate_contract(rng: &mut Rng, idx: u64) -> String {
     if rng.bool() {
         s.push_str("    #[constructor]\n    fn constructor(ref self: ContractState, init: felt252) { self.x.write(init); }\n");
     }
-    if rng.chance(1, 3) {
-        s.push_str("    #[l1_handler]\n    fn on_l1(ref self: ContractState, from_address: felt252, v: felt252) { self.x.write(v + from_address); }\n");
+    // Zero to three L1 handlers, declared in a seeded order of seeded names (so that declaration
+    // order and selector order disagree in some contracts).
+    if rng.chance(1, 2) {
+        let n = 1 + rng.below(3);
+        let mut names: Vec<String> = (0..n).map(|k| format!("on_l1_{}{}", ["msg", "deposit", "x", "withdraw_all", "q"][rng.below(5)], k)).collect();
+        for i in (1..names.len()).rev() {
+            names.swap(i, rng.below(i + 1));
+        }
+        for name in names {
+            s.push_str(&format!("    #[l1_handler]\n    fn {name}(ref self: ContractState, from_address: felt252, v: felt252) {{ self.x.write(v + from_address); }}\n"));
+        }
     }
     s.push_str("    #[abi(embed_v0)]\n    impl Gen of super::IGen<ContractState> {\n");
     for (sig, body) in bodies {
